@@ -117,4 +117,18 @@ PROPS = {
         "assumptions": ["Go's garbage collector does not move heap objects (allocation identity is observed through slice end addresses)"],
         "trusted": ["Go slice semantics as written into coq/Wire/ReaderModel.v"],
     },
+    "C09": {
+        "projection": "per-message log (lock-step) of sessions whose statement writes typed rows; DataRow bytes vs the codec model; fields decoded by the extracted decoder in the announced format",
+        "rule": "every supported type (bool, int2/4/8, text, varchar, bytea, uuid; float4/8 binary only) x every listed boundary value x the three NULL kinds (untyped nil, typed nil pointer, invalid pgtype value) x {simple query, Execute with result formats none/[0]/[1]}; every placement of the three NULL kinds in rows of width <= 3 (quick) / 5 (thorough) (4^w rows each, exhaustive); random tables of 1..5 columns with positional format lists",
+        "exhaustive": True,
+        "assumptions": ["text formatting of floats, numeric, date/time, arrays and all other pgx types are outside the codec model (partial): for them only the framing and NULL theorems apply"],
+        "trusted": ["pgx v5.4.3 pgtype codecs, compared with coq/Wire/Codec.v on every generated value"],
+    },
+    "C14": {
+        "projection": "rows (decoded values) and final outcome returned by BinaryCopyReader.Read inside a real COPY session",
+        "rule": "40 (quick) / 800 (thorough) streams over 6 table shapes (int2/4/8, bool, text, varchar, bytea, uuid), 0..3 rows with NULLs and boundary values, header and trailer optional; each stream split at EVERY single position (streams <= 48 bytes; all streams in thorough), 20 double/triple cuts, byte-wise, with Flush/Sync noise in a third of the variants; corruptions (field count +1/0, length +1, 0xFFFFFFFE, just above the limit, truncation) and aborted streams (CopyFail) under the same splits; all splits of one stream must agree (direct oracle)",
+        "exhaustive": True,
+        "assumptions": ["field values above the message-size limit are rejected (design decision of the repaired reader)"],
+        "trusted": ["pgx binary decoders for the listed types (compared on every row)"],
+    },
 }
